@@ -35,7 +35,7 @@ type diffFeatures struct {
 	descents, ascents, laterals, rewinds, repeats, failingMoves         int
 	maxDepth                                                            int
 	reloaded, reentered, limitHit, emptyResult                          bool
-	langSwitches, invalidLang, renderErrors                             int
+	langSwitches, invalidLang, renderErrors, execErrors                 int
 	translatedRender, untranslatedRender                                bool
 	ended                                                               string
 	afterEnd                                                            int
@@ -184,6 +184,15 @@ func modelDiff(a *app.App, inputs []BS, mode app.Mode, asp diffAspects, hooks *d
 			return at("exec-error-differs", "execution error: implementation %q, documented semantics: %v (%s)", rs.ExecErr, ms.ExecErr, ms.ErrWhy), f, ""
 		}
 		if ms.ExecErr {
+			if mode.Kind == "persist" && ms.Bail == "" {
+				// of the failed request itself only this is compared: a value that was refused
+				// is not what the cache remembers as its last value; the next request starts over
+				if asp.cache && rs.After != nil && rs.After.Last != m.Last && strings.Contains(ms.ErrWhy, "limit") {
+					return at("last-value-differs", "after the refused result (%s) the cache's last value is %q, the last value stored is %q", ms.ErrWhy, rs.After.Last, m.Last), f, ""
+				}
+				f.execErrors++
+				continue
+			}
 			f.bail = "execution error"
 			return nil, f, ""
 		}
@@ -283,6 +292,16 @@ func modelDiff(a *app.App, inputs []BS, mode app.Mode, asp diffAspects, hooks *d
 		if asp.cont && ms.Cont != rs.Cont {
 			return at("cont-differs", "cont: implementation %v, documented semantics %v (ended: %q)", rs.Cont, ms.Cont, ms.Ended), f, ""
 		}
+		// the catch page for invalid input opens with a line showing that input, also where
+		// the page's length (and so the rest of it) is not predicted
+		// (not at the graceful end of a session: there the last cached value is what is
+		// emitted when the page itself does not fit, known finding F-C01-1)
+		if asp.output && ms.FlushAny && ms.Catch == "invalid-input" && ms.Ended == "" && rs.Cont && rs.FlushErr == "" && rs.ExecErr == "" && rs.Out != "" && !ms.FlushErr {
+			first := strings.SplitN(rs.Out, "\n", 2)[0]
+			if !strings.Contains(first, in) || (in == "" && !strings.Contains(strings.ToLower(first), "invalid")) {
+				return at("output-differs", "the catch page for invalid input opens with %q, which does not show the input %q (whole output %q)", first, in, rs.Out), f, ""
+			}
+		}
 		if asp.fetches {
 			got := callsOfKind(rs.Calls, "code")
 			var gotNodes []string
@@ -376,6 +395,10 @@ func modelDiff(a *app.App, inputs []BS, mode app.Mode, asp diffAspects, hooks *d
 			}
 			if !framesEqual(after.Frames, want) {
 				return at("cache-differs", "cache scopes %v, documented semantics %v", after.Frames, want), f, ""
+			}
+			// the value kept for the end of the session is the last one that was stored
+			if after.Last != m.Last && ms.Ended == "" && !ms.FlushAny {
+				return at("last-value-differs", "the cache's last value is %q, the last value stored by a LOAD is %q", after.Last, m.Last), f, ""
 			}
 		}
 		if ms.Bail != "" {
